@@ -179,6 +179,7 @@ func runC35(c *Ctx) {
 				call := callValue(v)
 				return call != nil && strings.HasSuffix(calleeName(&call.Call), "gate.cloneLiveLiteRoutes") && strings.Contains(PathOf(call.Call.Args[0]), "candidate")
 			})
+			checkDeepClone(c, "publish-owned", c.MustFunc("pkg/gate:cloneLiveLiteRoutes"))
 			c.Check("publish-content", "current+candidate-routes@applyLiveConfigLocked", ci, fromCurrent && routesFromCandidate,
 				"the published snapshot must be a copy of the current one with a private clone of the candidate's routes")
 		}
